@@ -207,7 +207,9 @@ func (c *Conn) AsyncRead() {
 					_ = c.closeWithError(err)
 					return
 				}
-				if n < len(*pBuf) {
+				// a short read means the socket is drained, but only
+				// for streams: the next datagram may be waiting.
+				if n < len(*pBuf) && !c.IsUDP() {
 					break
 				}
 			}
